@@ -66,6 +66,11 @@ CLAIMED = {
     text='The partial trace is specified on matrix units by the mixed-radix index contraction; TLC enumerates every dimension list (length 2..3 entries 2..3 quick; length <=4 entries 2..4 thorough) and every keep subset, checking trace preservation and two-step = one-step on all units, and emits the routing table that numqi.utils.partial_trace is compared with (Gaussian-integer operators, every matrix unit for small dimensions). Dicke states: TLC derives occupation order, orbits (partition of the basis, size = multinomial, closed under qudit swaps) and proves the integer identity (count)^2 n^2 = a_r b_s M(a) M(b) that equates the library closed form sqrt(a_r b_s)/n with the reduction coefficient defined by counting; get_dicke_klist/basis/Dicke/get_dicke_number, both forms of the reduction table and the fast reduction (numpy and torch) vs explicit embedding + partial trace are compared.',
     note='Tolerance 1e-9 (1e-8 composed). Linearity/sesquilinearity closes the gap from integer inputs to all inputs.',
     technique='TLA+ specs of partial trace (index contraction) and Dicke states (counting); TLC exhaustive enumeration of configurations; expected tables replayed into the code'),
+ 'C18': dict(
+    cat='model_checking', ref='6/C18',
+    text='Each named state of numqi.state is specified from its textbook definition as an exact object (kets = rational radical x integer vector, density matrices = rational matrices; Horodecki parameters on a Pythagorean grid so that sqrt(1-b^2) is rational). TLC enumerates the constructors over parameter grids including both end points and proves on every object: unit norm / trace one, symmetric, positive semidefinite by an exact rational LDL^T, return-density-matrix = projector of the ket, PPT of both Horodecki families on the whole grid and PPT of the Antoine family exactly for |q|<=3/2. Every object is compared entrywise with the constructor output. UPB kinds whose vectors are single-radical Gaussian-integer vectors (tiles, feng4x4, gentiles1, gentiles2) are validated by TLC as orthonormal product sets with complement rank D-|UPB| (PPT of the complement is the model theorem) and the returned BES is compared with the exact complementary projector. Closed-form REE/EOF/GME of Werner/isotropic states: TLC decides for each rational alpha whether it lies in the separable range and the recorded value must be exactly 0 there (end point included) and positive outside.',
+    note='NOT covered: UPB kinds with nested radicals / roots of unity (listed in the evidence file), tetrahedron POVM and Chebyshev bases, agreement of closed forms with generic routines on the entangled range, Wtype.',
+    technique='TLA+ exact rational catalogue of named states with LDL^T PSD/PPT proofs in TLC; entrywise replay into the constructors; TLC trace validation of UPB sets and closed-form zero patterns'),
  'C19': dict(
     cat='model_checking', ref='6/C19',
     text='For each shipped code the encoder gate list is read from the live object and handed to TLC as the program: TLC derives the stabilizer generators with the Clifford tableau, decides Knill-Laflamme for EVERY Pauli error of weight 1..d-1 (one state per error; pull-back rule cross-checked against the textbook commutation/group-membership formulation), and decides that each listed stabilizer string lies in +<S>. The real code words, knill_laflamme_inner_product on make_error_list, the shipped stabilizer circuits, make_error_list / make_asymmetric_error_set (n<=6, d<=4, four Z-weights) and quantum_weight_enumerator are then compared with / validated by TLC against those decisions (full <i|E|j> matrices incl. weight-d errors that violate KL).',
